@@ -370,6 +370,17 @@ def run_cases(ck: Check, quick: bool, n_random: int):
     compare_model(ck, reqs, expect)
 
 
+CYL_CORPUS = [
+    # a NON-winding on-axis component that is 9 columns long when unwrapped, on a grid of 7 columns (VERIF_SEED=7)
+    ("long-nonwinding", 0.5, 0.75, 0.0, [[0, 0, 0, 0, 0, 1, 1], [1, 0, 1, 1, 1, 1, 1], [0, 0, 1, 0, 0, 0, 0], [1, 1, 1, 0, 0, 0, 1], [0, 0, 1, 0, 0, 0, 1]]),
+    # an on-axis cylinder through the whole box (winds) with a hook whose tip is attached only across the boundary
+    ("winding-with-hook", 1.0, 1.0, 0.0, [[1, 1, 1, 1, 1, 1, 1], [0, 0, 0, 0, 0, 0, 1], [1, 0, 0, 0, 0, 0, 1]]),
+    # controls: a whole-axis cylinder (winds, fall-back is right) and a blob across the boundary
+    ("winding-plain", 1.0, 1.0, 0.0, [[1, 1, 1, 1, 1], [1, 1, 1, 1, 1], [0, 0, 0, 0, 0]]),
+    ("blob-across", 1.0, 0.75, -2.0, [[1, 1, 0, 0, 0, 1], [1, 0, 0, 0, 0, 1], [0, 0, 0, 0, 0, 0]]),
+]
+
+
 def cyl_periodic_cases(ck: Check, n: int):
     """cylindrical grids with periodic z: one droplet per PERIODIC component that touches the symmetry axis (volume = sum
     of its cell volumes, z = unwrapped centre of mass), whatever else is in the image (off-axis rings / tubes, also ones
@@ -379,11 +390,15 @@ def cyl_periodic_cases(ck: Check, n: int):
 
     rng = ck.rng
     creqs, cexpect = [], []
+    # corpus of past findings, evaluated first on every run (known finding D21: the spanning heuristic)
+    for name, dr, dz, z0, rows in CYL_CORPUS:
+        m = np.array(rows, dtype=bool)
+        ck.count("cyl_periodic.corpus")
+        check_cyl_mask(ck, m.shape[0], m.shape[1], dr, dz, z0, m, creqs, cexpect, periodic=True)
     for i in range(n):
         nr, nz = rng.randint(2, 6), rng.randint(3, 9)
         dr, dz = rng.choice([1.0, 0.5]), rng.choice([1.0, 0.75])
         z0 = rng.choice([0.0, -2.0])
-        grid = CylindricalSymGrid(nr * dr, [z0, z0 + nz * dz], [nr, nz], periodic_z=True)
         kind = rng.choice(["noise", "blob+tube", "blob+tube", "blobs", "head+tail"])
         if kind == "head+tail":
             # one asymmetric on-axis component across the periodic boundary (a 'tadpole'): a thick heavy head next to the
@@ -478,23 +493,39 @@ def check_cyl_mask(ck: Check, nr, nz, dr, dz, z0, m, creqs=None, cexpect=None, p
         comps = components(m, [False, True])
         onaxis = [(cells, lifts, w) for cells, lifts, w in comps if any(c[0] == 0 for c in cells)]
         case = {"kind": "cyl-periodic", "shape": [nr, nz], "dr": dr, "dz": dz, "z0": z0, "mask": m.astype(int).tolist()}
-        sig = {"gen": "cyl-periodic"}
         ck.case(("cylp", nr, nz, dr, dz, z0, m.tobytes()), nontrivial=bool(onaxis))
-        if any(w for _, _, w in onaxis):
-            ck.count("cyl_periodic.on_axis_component_spans_z")
-            return
+        # independent prediction of the implementation's "spanning" heuristic: it fires when an on-axis component winds
+        # around z, and also (known finding D21) when a NON-winding on-axis component is longer than one period when unwrapped
+        winding = any(w for _, _, w in onaxis)
+        long_ = any((max(c[1] + lifts[c][1] * nz for c in cells) - min(c[1] + lifts[c][1] * nz for c in cells) + 1) > nz
+                    for cells, lifts, w in onaxis if not w)
+        sig = {"gen": "cyl-periodic", "spanning_heuristic_expected": bool(winding or long_)}
+        if winding:
+            ck.count("cyl_periodic.on_axis_component_winds")
+        if long_:
+            ck.count("cyl_periodic.on_axis_component_longer_than_period")
         try:
             em = locate_droplets_in_mask(ScalarField(grid, m, dtype=bool))
         except Exception as e:  # noqa: BLE001
             ck.fail(f"cylindrical periodic mask raised {type(e).__name__}: {e}", {**sig, "check": "cyl_total"}, case)
             return
+        if winding or long_:
+            # is the result what the analysis WITHOUT periodic boundary conditions gives (the fall-back)?
+            try:
+                g2 = CylindricalSymGrid(nr * dr, [z0, z0 + nz * dz], [nr, nz], periodic_z=False)
+                em2 = locate_droplets_in_mask(ScalarField(g2, m, dtype=bool))
+                same = len(em) == len(em2) and all(
+                    abs(a.position[2] - b.position[2]) <= 1e-12 * max(1.0, abs(b.position[2])) and rel_close(a.volume, b.volume, 1e-12) for a, b in zip(em, em2))
+            except Exception:  # noqa: BLE001
+                same = False
+            sig["result_is_nonperiodic_fallback"] = bool(same)
         vol_r, vdz = grid.cell_volume_data
         cv = np.outer(vol_r, np.broadcast_to(vdz, (nz,)))
         L = nz * dz
         info = []
-        for cells, lifts, _ in onaxis:
+        for cells, lifts, w in onaxis:
             vol = float(sum(cv[c] for c in cells))
-            zc = z0 + dz * (np.mean([c[1] + lifts[c][1] * nz for c in cells]) + 0.5)
+            zc = None if w else z0 + dz * (np.mean([c[1] + lifts[c][1] * nz for c in cells]) + 0.5)
             info.append((vol, zc))
         unused = list(range(len(info)))
         kept = []
@@ -502,12 +533,12 @@ def check_cyl_mask(ck: Check, nr, nz, dr, dz, z0, m, creqs=None, cexpect=None, p
             hit = None
             for k in unused:
                 vol, zc = info[k]
-                dzz = (d.position[2] - zc + L / 2) % L - L / 2
+                dzz = 0.0 if zc is None else (d.position[2] - zc + L / 2) % L - L / 2
                 if rel_close(d.volume, vol, 1e-9) and abs(dzz) < 1e-9 * L:
                     hit = k
                     break
             if hit is None:
-                ck.fail(f"droplet z={d.position[2]:.4g} volume={d.volume:.6g} is not a periodic on-axis component (components: {[(round(v, 4), round(z, 4)) for v, z in info]})",
+                ck.fail(f"droplet z={d.position[2]:.4g} volume={d.volume:.6g} is not a periodic on-axis component (components (volume, z; z=None: winds): {[(round(v, 4), None if z is None else round(float(z), 4)) for v, z in info]})",
                         {**sig, "check": "cyl_component"}, case)
                 break
             unused.remove(hit)
@@ -518,7 +549,7 @@ def check_cyl_mask(ck: Check, nr, nz, dr, dz, z0, m, creqs=None, cexpect=None, p
             # components left out: only if their sphere overlaps that of another on-axis component at least as large
             # (the greedy overlap filter removes a droplet because of one that is present AT THAT MOMENT - C10 - which
             # may itself be removed later)
-            for k in unused:
+            for k in ([] if winding else unused):
                 vol, zc = info[k]
                 r = sphere_radius(vol, 3)
                 ok = False
